@@ -1071,6 +1071,14 @@ def run_sequence(kind, config_name, seed, seq, ops, stop_at_first=True, skip_sig
                 if snap(tw.target) != before:
                     problems.append((idx, label, "a local name was written through to the target"))
                 continue
+            if names is not None and len(names) == 1 and type(names[0][1]) is str and config_name != "classic-noprefix" \
+                    and not safe_hasattr(tw.twin if not label.startswith("cmp:") else type(tw.twin), names[0][1]) \
+                    and safe_hasattr(tw.twin if not label.startswith("cmp:") else type(tw.twin), "exposed_" + names[0][1]):
+                # the name does not exist on the target but its `exposed_` namesake does: by design the access is
+                # answered by the namesake (e.g. after `del p.level`, `p.level = v` writes `exposed_level`) - not the
+                # operation the twin would perform; neither run performs it
+                tw.observations["access to a missing name answered by its exposed_ namesake (by design, not the same operation): not performed"] += 1
+                continue
             if spec.label.startswith("rop:") and type(operands[0].for_twin) in (str, bytes):
                 # `text % proxy`, `bytes + proxy`: the left operand's C implementation consults the buffer / mapping
                 # slots of the right operand's TYPE, which a Python-level proxy class cannot mirror
@@ -1110,9 +1118,10 @@ def run_sequence(kind, config_name, seed, seq, ops, stop_at_first=True, skip_sig
                 else:
                     # a non-integer parameter: outside the model; islice refuses a non-integer count - for `factor` only
                     # from the second round on, and not at all when max_chunk caps the product
-                    if ex_p is None:
+                    if ex_p is None or type(ex_p).__name__ != "ValueError":
+                        # accepted after all, or the target is not iterable at all: what plain iteration gives
                         got_t, ex_t = plain_iter(tw.twin)
-                        res_p = ("ok", [tw.describe(x, True) for x in got_p])
+                        res_p = ("ok", [tw.describe(x, True) for x in got_p]) if ex_p is None else ("exc", type(ex_p).__name__)
                         res_t = ("ok", [tw.describe(x, False) for x in got_t]) if ex_t is None else ("exc", type(ex_t).__name__)
                     else:
                         res_t = ("exc", "ValueError")
